@@ -194,12 +194,14 @@ DEV = ('dev',)
 def hsh(name, n1, n2, ctor=None, op=None, **kw):
     S('hs_hist_' + name, 'hashset/hs_hist.cpp', {'assert': 'C18'}, extra=HSX, models=['sc'], bound=100, defs=['VF_N1=%d' % n1, 'VF_N2=%d' % n2] + (['VF_CTOR=' + ctor] if ctor else []) + (['VF_OP=%d' % op] if op is not None else []), **kw)
 for _op, _nm in enumerate(['clear', 'reserve', 'rehash', 'move_ctor', 'move_assign', 'swap']):
-    hsh('default_n20_' + _nm, 20, 1, op=_op, tiers=DEV)
-    hsh('sized16_n5_' + _nm, 5, 1, 'Set(16)', op=_op, tiers=DEV)
+    hsh('default_n20_' + _nm, 20, 1, op=_op, tiers=(DEV if _nm in ('reserve', 'rehash') else ('quick', 'thorough')))
+    hsh('sized16_n5_' + _nm, 5, 1, 'Set(16)', op=_op, tiers=(TH if _nm in ('reserve', 'rehash') else ('quick', 'thorough')))
 hs('default_le10', 10, tiers=DEV)
-S('hs_dbg_9_10', 'hashset/hs_grow.cpp', {'assert': 'C18'}, extra=HSX, models=['sc'], bound=100, defs=['VF_N=10','VF_NOFIND=1'], tiers=DEV)
+S('hs_dbg_9_10', 'hashset/hs_grow.cpp', {'assert': 'C18'}, extra=HSX, models=['sc'], bound=100, defs=['VF_N=10','VF_NOFIND=1','VF_FINE=1'], tiers=DEV)
 S('hs_default_le6_copy', 'hashset/hs_grow.cpp', {'assert': 'C18'}, extra=HSX, models=['sc'], bound=100, defs=['VF_N=6', 'VF_COPY=1'], tiers=DEV)
-S('hs_default_exact20_copy', 'hashset/hs_grow.cpp', {'assert': 'C18'}, extra=HSX, models=['sc'], bound=100, defs=['VF_N=20', 'VF_EXACT=1', 'VF_COPY=1'], tiers=DEV)
+# every check looks at a COPY of a set that grew past its head table
+S('hs_default_exact20_copy', 'hashset/hs_grow.cpp', {'assert': 'C18'}, extra=HSX, models=['sc'], bound=100, defs=['VF_N=20', 'VF_EXACT=1', 'VF_COPY=1'])
+S('hs_sized16_exact5_copy', 'hashset/hs_grow.cpp', {'assert': 'C18'}, extra=HSX, models=['sc'], bound=100, defs=['VF_N=5', 'VF_EXACT=1', 'VF_COPY=1', 'VF_CTOR=Set(16)'])
 S('hs_probe_two_full_groups', 'hashset/hs_probe.cpp', {'assert': 'C18'}, extra=HSX, models=['sc'], bound=100, defs=['VF_FULL_GROUPS=2'])
 S('hs_probe_three_full_groups', 'hashset/hs_probe.cpp', {'assert': 'C18'}, extra=HSX, models=['sc'], bound=100, defs=['VF_FULL_GROUPS=3'])
 
@@ -276,10 +278,17 @@ for _loc, _bal in ((2, 1), (2, 0), (0, 1)):
     S('tp_seq_stop_while_task_runs_local%d_balance%d' % (_loc, _bal), 'executor/tp_seq.cpp', {'assert': 'C07'}, defs=['VF_LOCAL=%d' % _loc, 'VF_BALANCE=%d' % _bal], extra=EXX, models=['sc'], bound=8)
 def tpx(name, ts, final, local=0, **kw):
     kw.setdefault('opts', {'loop:keep_execute': '4'})
-    S('tp_' + name, 'executor/tp.cpp', kw.pop('props', {'assert': 'C07', 'stuck': 'C07'}), defs=['VF_LOCAL=%d' % local] + ['VF_T%d=%s' % (i, t) for i, t in enumerate(ts)] + ['VF_FINAL=' + final], extra=EXX, **kw)
+    S('tp_' + name, 'executor/tp.cpp', kw.pop('props', {'assert': 'C07', 'stuck': 'C07'}), defs=['VF_LOCAL=%d' % local] + ['VF_T%d=%s' % (i, t) for i, t in enumerate(ts)] + ['VF_FINAL=' + final] + list(kw.pop('defs_extra', ())), extra=EXX, **kw)
 tpx('submit_then_stop', ['SUBMIT(0);STOP_MARKS(1);JOIN(0);vf_check(__atomic_load_n(&ran[0], __ATOMIC_RELAXED)==1, 1)', 'WORKER(0)'], 'vf_check(ran[0]==1 && in_pool[0]==1 && ret[0]==0, 2)')
 tpx('two_tasks', ['SUBMIT(0);SUBMIT(1);STOP_MARKS(1);JOIN(0)', 'WORKER(0)'], 'vf_check(ran[0]==1 && ran[1]==1, 2)')
 tpx('two_workers', ['SUBMIT(0);SUBMIT(1);STOP_MARKS(2);JOIN(0);JOIN(1)', 'WORKER(0)', 'WORKER(1)'], 'vf_check(ran[0]==1 && ran[1]==1, 2)', tiers=TH, timeout=7200)
+# owner pop vs steal on a worker's local queue: worker 1 owns a local queue holding 1-2 tasks (pushed in set-up the way enqueue_task
+# does from inside the pool), worker 2 steals; both find their STOP marker in the global queue afterwards
+tpx('steal_vs_owner_1', ['vf_yield()', 'WORKER(0)', 'WORKER(1)'], 'vf_check(ran[0]==1 && in_pool[0]==1, 2)', local=2, tiers=DEV,
+    defs_extra=['VF_STEAL=1', 'VF_INIT_EXTRA=GLOBAL_STOP();GLOBAL_STOP()', 'VF_PRO1=LOCAL_TASK(0)'], opts={'loop:keep_execute': '3', 'loop_reset': '1'})
+tpx('steal_vs_owner_2', ['vf_yield()', 'WORKER(0)', 'WORKER(1)'], 'vf_check(ran[0]==1 && ran[1]==1 && in_pool[0]==1 && in_pool[1]==1, 2)', local=2, tiers=DEV,
+    defs_extra=['VF_STEAL=1', 'VF_INIT_EXTRA=GLOBAL_STOP();GLOBAL_STOP()', 'VF_PRO1=LOCAL_TASK(0);LOCAL_TASK(1)'], opts={'loop:keep_execute': '4', 'loop_reset': '1'})
+tpx('spawn_child_local', ['SUBMIT_SPAWNING(0,1);STOP_MARKS(1);JOIN(0)', 'WORKER(0)'], 'vf_check(ran[0]==1 && ran[1]==1 && in_pool[1]==1, 2)', local=2, tiers=DEV)
 # (a task that submits a child into the worker's local queue does not converge in the engine yet: formula contradictory, see DESIGN.md open items)
 
 # ----------------------------------------------------------------------------------------------- C11: serialization (sequential)
